@@ -197,7 +197,7 @@ func loadKnownFindings(path string) []KnownFinding {
 // contractLevel: obligation kinds recorded in the ledger (their disappearance is a failure).
 func contractLevel(kind string) bool {
 	switch kind {
-	case "ensures", "inv", "variant", "frame", "lemma", "chaninv", "stable", "cover", "static", "typeinv", "reach", "loopframe":
+	case "ensures", "inv", "variant", "frame", "lemma", "chaninv", "stable", "cover", "static", "typeinv", "reach", "loopframe", "iter":
 		return true
 	}
 	return false
@@ -428,7 +428,7 @@ func RunCheck(opt Options) int {
 	wall := time.Since(start).Seconds()
 	ev := Evidence{PropertyID: opt.Prop, Tier: opt.Tier, Seed: opt.Seed, Level: "proof", WallS: wall, Violations: violations}
 	var fnNames []string
-	var unsup, uncontracted, ext, ifaces, trusted []string
+	var unsup, uncontracted, ext, ifaces, trusted, assumed []string
 	paths, dead, havocAll := 0, 0, 0
 	for _, rep := range reports {
 		if rep.Full {
@@ -445,6 +445,7 @@ func RunCheck(opt Options) int {
 			ext = append(ext, rep.ExtUsed...)
 			ifaces = append(ifaces, rep.IfaceUsed...)
 			trusted = append(trusted, rep.TrustedUsed...)
+			assumed = append(assumed, rep.Assumed...)
 		}
 	}
 	var samples []map[string]interface{}
@@ -488,6 +489,7 @@ func RunCheck(opt Options) int {
 		"external_assumed":         uniq(ext),
 		"interface_contracts_used": uniq(ifaces),
 		"trusted_contracts_used":   uniq(trusted),
+		"assumed_clauses":          uniq(assumed),
 		"havoc_all_calls":          havocAll,
 		"known_findings":           knownHit,
 		"failed":                   failedNames,
